@@ -13,7 +13,9 @@ namespace Circus.Core
     Setting: nothing in flight (`Idle u s`); one watcher object `w` (identity `u`), active, without hooks,
     `stop_children = false`, stop signal not SIGKILL, any `graceful_timeout > 0`, listing `m ≥ 1` distinct
     pids; each listed worker runs, ignores terminating signals (`term = none`), dies at once on SIGKILL
-    (`killLat = 0`), has no children, and its process object is fresh (`Stubborn u w s`); the request is
+    (`killLat = 0`), has no children, and its process object is fresh (`Stubborn u w s`); the daemon is permitted
+    to signal every process (`Kernel.Base.signalable`: no worker under another uid — with such a worker the stop
+    *fails* part-way, see Props/C10Fail.lean and the evaluated histories there and in Props/C06.lean); the request is
     `stop` for that watcher by name (`match: simple`), `waiting` or not.
 
     Claim: the request followed by exactly `n = m * ⌈graceful_timeout / 100 ms⌉` timer firings ends with
@@ -218,7 +220,7 @@ theorem c02s0_stubborn : Stubborn 1 c02w c02s0 := by
   refine ⟨c02s0_ws, by decide +kernel, ⟨by decide +kernel, List.eq_nil_of_length_eq_zero (by decide +kernel),
     by decide +kernel, by decide +kernel⟩, by decide +kernel, by rw [hp]; decide, ?_, ?_⟩
   · refine ⟨List.eq_nil_of_length_eq_zero (by decide +kernel), List.eq_nil_of_length_eq_zero (by decide +kernel),
-      by decide +kernel, by decide +kernel, by decide +kernel⟩
+      by decide +kernel, by decide +kernel, by decide +kernel, by decide +kernel⟩
   · intro pid hpid
     rw [hp] at hpid
     simp only [List.mem_cons, List.mem_nil_iff, or_false] at hpid
@@ -297,7 +299,7 @@ theorem c02t0_obedient : Obedient 1 c02v c02t0 := by
   refine ⟨c02t0_ws, by decide +kernel, ⟨⟨by decide +kernel, List.eq_nil_of_length_eq_zero (by decide +kernel),
     by decide +kernel, by decide +kernel⟩, by decide +kernel, by decide +kernel⟩, by decide +kernel, by rw [hp]; decide, ?_, ?_⟩
   · refine ⟨List.eq_nil_of_length_eq_zero (by decide +kernel), List.eq_nil_of_length_eq_zero (by decide +kernel),
-      by decide +kernel, by decide +kernel, by decide +kernel⟩
+      by decide +kernel, by decide +kernel, by decide +kernel, by decide +kernel⟩
   · intro pid hpid
     rw [hp] at hpid
     simp only [List.mem_cons, List.mem_nil_iff, or_false] at hpid
